@@ -1058,12 +1058,17 @@ func (r *vfRunner) exec(st vfStep) (string, *vfViol) {
 		var a vfIReadArgs
 		_ = json.Unmarshal(st.Args, &a)
 		if st.Res != "ok" {
-			fr, err, hung := r.iterRead(a.G, a.Keys, r.c.ts(a.A), r.c.ts(a.B), 0)
-			_ = fr
+			// only the OPEN is judged: it must fail. (An iterator that was wrongly opened is
+			// closed in the background: its peers' streams may already be dead.)
+			it, err, hung := vfCall(vfWatchdog, func() (*iterator.Iterator, error) {
+				return r.cl.nodes[a.G].Framer.OpenIterator(ctx, iterator.Config{Keys: r.realKeys(a.Keys),
+					Bounds: telem.TimeRange{Start: r.c.ts(a.A), End: r.c.ts(a.B)}})
+			})
 			if hung {
 				return "hang", nil
 			}
 			if err == nil {
+				go func() { _, _, _ = vfCall(2*time.Second, func() (int, error) { return 0, it.Close() }) }()
 				if st.Res == "notfound" {
 					return "ok", &vfViol{Kind: "open", Sig: "iterator opened on a channel that does not exist", Step: r.step,
 						What: fmt.Sprintf("OpenIterator on node %d with keys %v (X = %d, never created) succeeded", a.G, a.Keys, r.keys["X"])}
